@@ -60,11 +60,15 @@ def _attrs_read(ctx, modname, fname, param="url", atomic=()):
         for x in P.subterms(t):
             if x[0] == "attr":
                 base = x[1]
+                while base[0] == "inl":  # a helper that only wraps the parse (parse-or-None) stands for the parse
+                    base = base[2]
                 if base == ("param", param) or (base[0] == "call" and base[1] == "ural.utils.safe_urlsplit") or (base[0] == "phi" and any(b == ("param", param) or (b[0] == "call" and b[1] == "ural.utils.safe_urlsplit") for b in (base[2], base[3]))):
                     reads.add(x[2])
             # the whole parsed value handed to something else
             if x[0] in ("call", "method") and x[0] == "call" and x[1] not in ("ural.utils.safe_urlsplit", "builtins.isinstance", "builtins.bool"):
                 for a in x[2]:
+                    while a[0] == "inl":
+                        a = a[2]
                     if a == ("param", param) or (a[0] == "call" and a[1] == "ural.utils.safe_urlsplit"):
                         others.add(x[1])
             if x[0] == "method":
@@ -103,8 +107,12 @@ def attribute_dependence(ctx, rule):
             for r in rets:
                 for t in [r.term] + [c for c, p in r.conds]:
                     for x in P.subterms(t):
-                        if x[0] == "attr" and x[1][0] == "call" and x[1][1] == "ural.utils.safe_urlsplit":
-                            reads.add(x[2])
+                        if x[0] == "attr":
+                            base = x[1]
+                            while base[0] == "inl":
+                                base = base[2]
+                            if base[0] == "call" and base[1] == "ural.utils.safe_urlsplit":
+                                reads.add(x[2])
             ctx.fn("ural.classes.hostname_trie_set.HostnameTrieSet.match")
             ctx.ob(rule, "HostnameTrieSet.match/reads", reads <= allowed and bool(reads), "HostnameTrieSet.match reads %s of the parsed url (documented: hostname only)" % sorted(reads), mod.site(fn), sample="HostnameTrieSet.match reads %s" % sorted(reads))
             continue
